@@ -142,6 +142,11 @@ extern "C" void harness_labels()  /* vf: bounds=2_templates:presence_of_select(f
     MModel m; m.gdecl = GDECL; m.system = "system T, U;";
     MTemplate t = base_template("T", 0), u = base_template("U", 1);
     int l0 = vf_pick("!labels_edge0", 32), l1 = vf_pick("!labels_edge1", 4), l2 = vf_pick("!labels_other_template", 4);
+    // how the text blocks are written: escaped text, or CDATA sections (labels / declarations and system / both)
+    xml_cdata_mask = vf_pick("!cdata_sections", 4);
+#ifndef VF_TIER_THOROUGH
+    vf_assume(xml_cdata_mask == 0 || (l1 == 3 && l2 == 3));
+#endif
     MEdge e0; e0.src = 0; e0.dst = 1;
     int sf = vf_pick("!select_form", 3);
     static const char* SEL[] = {"k : int[0,2]", "g : int[0,2]", "k : int[0,2], h : int[0,2]"};   // fresh binder, binder shadowing a global, two binders (one shadowing)
@@ -161,6 +166,60 @@ extern "C" void harness_labels()  /* vf: bounds=2_templates:presence_of_select(f
     u.edges = {f};
     m.templs = {t, u};
     run_and_compare(m);
+    xml_cdata_mask = 0;
+    vf_reach("end");
+}
+
+// each template gets exactly its own parameters, whatever kind of template precedes it (with or without parameters, ordinary or the definition
+// of a template declared dynamic in the global declarations)
+extern "C" void harness_template_parameters()  /* vf: bounds=3_templates_in_a_row,each_ordinary_or_dynamic(declared_in_the_global_declarations),with_0..2_parameters(value,const,reference) reach=end */
+{
+    static const char* PARAMS[] = {"", "int[0,3] id", "const int a, int &r"};
+    static const char* PNAMES[][2] = {{nullptr, nullptr}, {"id", nullptr}, {"a", "r"}};
+    MModel m; m.gdecl = GDECL;
+    int kind[3], np[3];
+    const char* names[3] = {"W", "T", "V"};
+    for (int i = 0; i < 3; i++) { std::string n = std::to_string(i); kind[i] = vf_pick(("!dynamic" + n).c_str(), 2); np[i] = vf_pick(("!parameters" + n).c_str(), 3); }
+    vf_assume(!(kind[1] && kind[2]));   // at most two dynamic templates
+    for (int i = 0; i < 3; i++) {
+        MTemplate t = base_template(names[i], i);
+        t.params = PARAMS[np[i]];
+        MEdge e; e.src = 0; e.dst = 1; e.guard = "g < 1" + std::to_string(i); t.edges = {e};
+        if (kind[i]) m.gdecl += std::string(" dynamic ") + names[i] + "(" + PARAMS[np[i]] + ");";
+        m.templs.push_back(t);
+    }
+    // the system line lists the ordinary templates without parameters (or nothing but a filler process)
+    MTemplate f = base_template("F", 3); m.templs.push_back(f);
+    m.system = "system F;";
+    XmlDoc d = render_xml(m);
+    Document doc; DocumentBuilder b(doc);
+    bool threw = false;
+    try { parse_xml(d, &b); } catch (std::exception& ex) { threw = true; vf_note(ex.what()); }
+    vf_assert(!threw, "well-formed-model-parsed-without-exception");
+    if (threw) return;
+    if (doc.has_errors()) note_errors(doc);
+    vf_assert(!doc.has_errors(), "well-formed-model-accepted-by-builder");
+    int bad = 0;
+    auto find = [&](const char* n) -> template_t* {
+        for (auto& t : doc.get_templates()) if (t.uid.get_name() == n) return &t;
+        for (auto* t : doc.get_dynamic_templates()) if (t->uid.get_name() == n) return t;
+        return nullptr; };
+    for (int i = 0; i < 4; i++) {
+        const char* n = i < 3 ? names[i] : "F";
+        template_t* t = find(n);
+        bad += !eq(std::string(n) + " present", t ? "1" : "0", "1");
+        if (!t) continue;
+        int want = i < 3 ? (np[i] == 0 ? 0 : np[i] == 1 ? 1 : 2) : 0;
+        bad += !eq(std::string(n) + ".#parameters", std::to_string(t->parameters.get_size()), std::to_string(want));
+        for (int k = 0; k < want && k < (int)t->parameters.get_size(); k++) bad += !eq(std::string(n) + ".parameter" + std::to_string(k), t->parameters[k].get_name(), PNAMES[np[i]][k]);
+        bad += !eq(std::string(n) + ".unbound", std::to_string(t->unbound), std::to_string(want));
+        bad += !eq(std::string(n) + ".#locations", std::to_string(t->locations.size()), "3");
+        bad += !eq(std::string(n) + ".#edges", std::to_string(t->edges.size()), i < 3 ? "1" : "0");
+    }
+    int ordinary = 1; for (int i = 0; i < 3; i++) ordinary += !kind[i];
+    bad += !eq("#templates", std::to_string(doc.get_templates().size()), std::to_string(ordinary));
+    vf_assert(bad == 0, "document-mirrors-xml");
+    assert_invariants(doc, true);
     vf_reach("end");
 }
 
